@@ -358,3 +358,19 @@ MUTANTS += [
     dict(id="c11_matrix_upper_triangle_for_undirected", props=["C11"], edits=[
         (AM, "            if cell:\n", "            if cell and not (j < i and not issubclass(linktype, DirectedEdge) and matrix[j][i]):\n")]),
 ]
+
+NP = "edgegraph/output/nrpickler.py"
+MUTANTS += [
+    # ---------------- C10 -------------------------------------------------
+    dict(id="c10_revert_fix_d11", props=["C10"], edits=[
+        (NP, "                    if id(lw.obj) in self.memo:\n", "                    if False:\n")]),
+    dict(id="c10_revert_fix_d9", props=["C10"], edits=[
+        (VX, "        stats = self._CACHE_STATS.setdefault(self.uid, [0, 0, 0, 0])\n", "        stats = self._CACHE_STATS[self.uid]\n")]),
+    dict(id="c10_lazy_only_at_start", props=["C10"], edits=[
+        (NP, "        self.lazywrites.append(_LazySave(obj))\n", "        if len(self.memo) > 300:\n            return self.realsave(obj)\n        self.lazywrites.append(_LazySave(obj))\n")]),
+    dict(id="c10_getstate_drops_universes", props=["C10"], edits=[
+        (BS, "    @property\n    def uid(self) -> int:", "    def __getstate__(self):\n        d = dict(self.__dict__)\n        d['_universes'] = list(d.get('_universes', []))[:1]\n        return d\n\n    @property\n    def uid(self) -> int:")]),
+    dict(id="c10_tail_requeue_lost", props=["C10"], edits=[
+        (NP, "                    if self.lazywrites:\n                        self.lazywrites.extend(lws)\n                        break",
+             "                    if self.lazywrites:\n                        self.lazywrites.extend(lws if len(lws) < 400 else lws[:-1])\n                        break")]),
+]
